@@ -299,6 +299,7 @@ def run_cases(draw):
     c["islands"] = draw(st.integers(1, 2))
     c["evolutions"] = draw(st.integers(1, 3))
     c["pygmo_seed"] = draw(st.integers(0, 100000))
+    c["rewrite_targets"] = draw(st.sampled_from([False, False, True]))
     # a stochastic pipeline made reproducible by the declared pipeline_seed: the figure of merit and the returned data are those of the seeded run
     if draw(st.booleans()):
         c["noise"], c["pipeline_seed"] = draw(st.sampled_from([0.5, 3.0])), draw(st.integers(0, 2**31 - 1))
@@ -316,6 +317,14 @@ def body_run(case, rec):
     rec.cls("run:seeded_noise" if case.get("noise") else "run:deterministic")
     rec.cls(f"run:range:{case['range_class']}", f"run:weights:{case['weights']}", f"run:islands:{case['islands']}", "run:time_domain" if case["time_domain"] else "run:single_readout")
     rec.nt(True)
+    _run_once(case, rec, "")
+    if case.get("rewrite_targets") and not rec.failures:
+        # the same target / weight paths now hold other data: a second calibration in this process must use what the files hold now
+        rec.cls("run:second_calibration_after_target_rewrite")
+        _run_once(dict(case, target_seed=case["target_seed"] + 7919), rec, "second calibration after the target files were rewritten: ")
+
+
+def _run_once(case, rec, where):
     spec, targets, warrays = _spec(case, rec.tmp, algo={"type": "sade", "generations": 2, "population_size": 8},
                                    pygmo_seed=case["pygmo_seed"], num_islands=case["islands"], num_evolutions=case["evolutions"])
     res = None
@@ -329,7 +338,7 @@ def body_run(case, rec):
         for ev in range(fit.shape[1]):
             want = reference_fitness(case, par[isl, ev], targets, warrays)
             rec.check(np.isclose(fit[isl, ev], want, rtol=1e-9, atol=1e-9), "champion_fitness_not_reproducible",
-                      f"island {isl} evolution {ev}: reported {fit[isl, ev]!r}, re-simulating the reported parameters gives {want!r}")
+                      f"{where}island {isl} evolution {ev}: reported {fit[isl, ev]!r}, re-simulating the reported parameters gives {want!r}")
         rec.check(bool(np.all(np.diff(fit[isl]) <= 1e-9 * np.maximum(1.0, np.abs(fit[isl][:-1])))), "champion_fitness_got_worse", f"island {isl}: {fit[isl].tolist()}")
     # returned simulated data of the last champions
     rs, rr, rc = _slices(case["result_fit_range"], case["steps"], case["time_domain"])
